@@ -12,40 +12,5 @@ NOTES = ("All checks explore the implementation itself (imported from an overlay
          "never a separate model; see DESIGN.md.  Interpreter: /venv/bin/python.")
 NOT_APPLICABLE = {}
 LAT = "bounded exhaustive enumeration (explicit-state, on the implementation)"
-CHECKS = {
-    "C05": dict(
-        engine="lattice",
-        text="Every data tuple up to the length bound over a 9-value alphabet (ties, bin-edge values, constants, single elements) x every binning option x min/max limits x both entry points is run through both histogram engines and compared with a floor-based reference partition; no case in the bounded space violates the property.",
-        design_ref="DESIGN.md 3 C05",
-        note="Holds for the enumerated alphabet/length bounds only; float64 reference arithmetic as written in the statement; arrays longer than the bound only through the 2-symbol pattern family.",
-        technique=LAT + " of data tuples x binning options x engines against a reference partition",
-    ),
-    "C01": dict(
-        engine="lattice+histories",
-        text="Every table of the bounded dtype lattice (16 kinds x 4 sub-array shapes x 2 byte orders; 1-, 2-, 3- and 16-field tables) with boundary cell values, every header of the key x value lattice, every field name of the name lattice, through every writer x reader entry point, is written and read back on the real code and compared bit-for-bit with the written table, the raw file bytes and the header (type-identical); plus all read sequences up to depth 3 on one open handle against fresh handles.",
-        design_ref="DESIGN.md 3 C01",
-        note="Bounded alphabets (<=16 fields, <=2 user header keys, rows<=17); files live on tmpfs; offset for header-less readers derived from file length.",
-        technique=LAT + " of tables x headers x names x writer x reader, plus BFS over read histories on one handle",
-    ),
-    "C02": dict(
-        engine="lattice+histories",
-        text="For a stored 4-field table (binary and text, little/big-endian, 1..6 rows) every scalar row, every row sequence up to the length bound in 5 container types, every slice over [-n-2,n+2] x steps, every ordered column subset in 3 containers, scalar and unknown names, through 14 access styles (keyword, bracket, chained, get_subset, convenience readers with split/reduce) is read on the real code and compared with Python indexing of the in-memory table; out-of-range selections must be rejected; plus all read pairs/triples on one open handle against the oracle.",
-        design_ref="DESIGN.md 3 C02",
-        note="One table layout (two byte orders), rows<=6, row lists <=4 long; negative members in row lists and empty lists unconstrained; rows x columns crossed pairwise, not fully.",
-        technique=LAT + " of row/column selections x access styles x delimiters against Python indexing, plus BFS over read histories",
-    ),
-    "C03": dict(
-        engine="histories",
-        text="Explicit-state BFS over all histories (depth 5 quick / 9 thorough, then canonical-key de-duplication) of create/overwrite, append-by-reopen, 7 kinds of incompatible append, open(w|r+), repeated writes and bad writes on one handle, close - each transition executed on the real sfile/recfile code by replay from a fresh file - compared after every step with a list-of-rows reference model: content = concatenation, _SIZE = total rows, creation header retained, delimiter retained, data-section length, rejected appends raise and leave the bytes unchanged; second world for the header-less Recfile path; seeded from three non-initial files.",
-        design_ref="DESIGN.md 3 C03",
-        note="Rows per file bounded (<=6 quick, <=12 thorough), two dtypes, delimiters {None,','} quick / {None,',',tab,space} thorough; no reads through a second handle while a write handle is open.",
-        technique="explicit-state BFS over operation histories on the real file code (replay from fresh, full-state canonical key) against a reference model",
-    ),
-    "C04": dict(
-        engine="lattice",
-        text="Every table of the text dtype lattice (13 kinds x 3 shapes x 2 byte orders; 1-, 2-, 3-field and wide tables) with boundary cell values (integer extremes, floats over 600 decades, denormals, NaN, +-inf, +-0, strings with leading/embedded/trailing blanks, delimiter characters, tabs) x 6 delimiters x 5 writers x all readers is round-tripped on the real code and compared: integers/strings exact, floats to 16/7 significant digits, native byte order, names/shapes, header _DELIM/_DTYPE, input array untouched.",
-        design_ref="DESIGN.md 3 C04",
-        note="Tolerance 0.5*10^(e-15)+0.5ulp (f8), 0.5*10^(e-6)+0.5ulp (f4); DBL_MAX off the lattice (its 16-digit form overflows); known finding D9 recognised by an input predicate.",
-        technique=LAT + " of text tables x delimiters x writer x reader against a decimal-digit tolerance oracle",
-    ),
-}
+import json, os
+CHECKS = json.load(open(os.path.join(os.path.dirname(os.path.abspath(__file__)), "checks.json")))
